@@ -88,15 +88,15 @@ func viewOf(root string, v map[string][]diag) wsView {
 }
 
 type wsRun struct {
-	raw   json.RawMessage
-	tc    *wsCase
-	lastStep []int     // per event: index of its last driver step
-	views []wsView     // client view after start-up (index 0) and after each event
-	disks []map[string]string
-	bufs  []map[string]string
-	dead  bool
-	qsteps []wsQStep // the query bundle asked after the last event
-	qans  map[string][]string
+	raw      json.RawMessage
+	tc       *wsCase
+	lastStep []int    // per event: index of its last driver step
+	views    []wsView // client view after start-up (index 0) and after each event
+	disks    []map[string]string
+	bufs     []map[string]string
+	dead     bool
+	qsteps   []wsQStep // the query bundle asked after the last event
+	qans     map[string][]string
 }
 
 // wsQStep is one query of the bundle: which abstract file its answer is filed under ("ws" for workspace-wide ones).
@@ -409,17 +409,17 @@ func checkC08(c *Ctx) {
 	c.Rep.Extra["fresh_oracle_disk_states"] = len(okeys)
 	// ---- trace file and TLC validation, in batches ----
 	type line struct {
-		Ev     string            `json:"ev"`
-		F      string            `json:"f,omitempty"`
-		V      string            `json:"v,omitempty"`
-		W      bool              `json:"w"`
-		Disk   map[string]string `json:"disk,omitempty"`
-		Run    int               `json:"run"`
-		Step   int               `json:"step"`
-		Client wsView            `json:"client"`
-		Fresh  wsView            `json:"fresh"`
-		Syn    wsView            `json:"syn"`
-		Q      bool              `json:"q"` // the query bundle was asked after this event
+		Ev     string              `json:"ev"`
+		F      string              `json:"f,omitempty"`
+		V      string              `json:"v,omitempty"`
+		W      bool                `json:"w"`
+		Disk   map[string]string   `json:"disk,omitempty"`
+		Run    int                 `json:"run"`
+		Step   int                 `json:"step"`
+		Client wsView              `json:"client"`
+		Fresh  wsView              `json:"fresh"`
+		Syn    wsView              `json:"syn"`
+		Q      bool                `json:"q"` // the query bundle was asked after this event
 		QC     map[string][]string `json:"qclient"`
 		QF     map[string][]string `json:"qfresh"`
 	}
